@@ -1403,6 +1403,23 @@ class Evaluator:
         m = re.search(r"(Result|Option)::<.*>::(map|and_then|map_err|inspect|inspect_err|ok_or_else|unwrap_or_else|or_else)$", c)
         if m and len(args) == 2:
             return self._combinator(frame, bi, m.group(1), m.group(2), args[0], args[1], site, entry)
+        m = re.search(r"(Result|Option)::<.*>::map_or$", c)
+        if m and len(args) == 3:
+            # opt.map_or(d, f) = f(payload) when Some / Ok, d otherwise
+            mapped = self._combinator(frame, bi, m.group(1), "map", args[0], args[2], site, entry)
+            good = "Ok" if m.group(1) == "Result" else "Some"
+            gv = None
+            if tag(mapped) == "variant":
+                return mapped[3][0] if mapped[2] == good else args[1]
+            if tag(mapped) == "vsum":
+                gv = dict(mapped[2]).get(good, (None,))[0]
+            recv = args[0]
+            if gv is not None and tag(recv) == "call" and recv[1].endswith("checked_sub"):
+                # Some <=> b <= a: an if-then-else term on that condition (order.eq_cases splits on it)
+                return ("ite", as_lin(sub(recv[2][0], recv[2][1])), gv, args[1])
+            if gv is not None:
+                return self._join_val(gv, args[1], site, ("map_or",))
+            return ("call", c, tuple(args))
         # ---- closures
         if re.search(r"ops::(Fn|FnMut|FnOnce)(<.*>)?>?::(call|call_mut|call_once)$", c):
             f = self._deref_val(args[0])
